@@ -31,10 +31,10 @@ META = {
     "C08": ("round-trip of save / save-pipeline histories through the built binary and the real loader vs an in-memory model",
             "Generated save histories with hostile argv strings run against the built binary in an isolated HOME; the reloaded notebook must equal the model list field by field, merge order main-then-notebook, and saved entries must be found by a search for their words.",
             "flag values avoid CSV metacharacters (pflag's quoting is not WTF's contract); argv cannot carry NUL"),
-    "C09": ("fault enumeration over generated (state, write op) pairs: RLIMIT_FSIZE stops the write after k bytes (every k of small files, sampled k of larger ones) + strace fault injection at every traced system call of the op (SIGKILL on entry; EIO/ENOSPC/EDQUOT in the write phase)",
+    "C09": ("fault enumeration over generated (state, write op) pairs: RLIMIT_FSIZE stops the write after k bytes (every k of small files, sampled k of larger ones) + strace fault injection at every traced system call of the op (SIGKILL on entry; EIO/ENOSPC/EDQUOT in the write phase) + the running child's soft limit raised in two steps (prlimit64) so short writes can be resumed",
             "For generated (state, write op) pairs the child is stopped after every prefix length k, killed on entry to every system call it makes, and has every write-phase call failed; afterwards the file must be byte-identical to the old or the new content, success must not be reported for a write that did not take effect, old entries stay loadable and a later ordinary op proceeds from the surviving state.",
             "crashes are process crashes (page cache survives): loss of unsynced data at power failure is not modelled; the crash-point tier needs a working strace (recorded as strace-unavailable otherwise)"),
-    "C10": ("totality fuzzing: rapid structured generator + native go-fuzz over file bytes x query x options with error-class and round-trip oracles",
+    "C10": ("totality fuzzing: rapid structured generator + native go-fuzz over file bytes x query x options with error-class and round-trip oracles + generated path kinds (ENOTDIR, ENAMETOOLONG, ELOOP, dangling links ...) through every loader",
             "Arbitrary file content is loaded and searched through every entry point under a watchdog; no panic, no hang, missing file => not-found, undecodable => parse error, every well-formed list loads back equal.",
             "watchdog of 20 s stands in for 'bounded time'; native fuzz campaigns are not seed-reproducible, their saved inputs are"),
     "C11": ("generated concurrent programs under the race detector + porcupine linearizability of recorded LRU histories + sequential-answer differential",
